@@ -738,77 +738,129 @@ def r28_rec_table(ctx):
         comps = [n for n in names if n != "reps"]
         key = tuple(kind_of.get(n, "?") for n in comps)
         reader[key] = (names, seps, r.pattern)
-    # writer: per format number
+    # writer: per format number, from the decision table of __str__ and the
+    # shape of the string each path returns
+    from .. import strabs
+    from ..dtable import explore
+    interp = strabs.Interp(ctx, f)
     writer = {}
-    for n in walk_no_nested(f.node):
-        if isinstance(n, ast.If) and "_format_number ==" in U(n.test):
-            k = n.test.comparators[0].value
-            ret = [x for x in n.body if isinstance(x, ast.Return)]
-            if not ret:
-                continue
-            txt = U(ret[0].value)
-            comps = []
-            for m in re.finditer(r"_start_point|_second_point|_end_point|"
-                                 r"duration_str|_duration", txt):
-                comps.append("duration" if "duration" in m.group(0)
-                             else "point")
-            writer[k] = (tuple(comps), txt)
+    prefixes = set()
+    for p_ in explore(f.node.body):
+        if p_.outcome != "return" or p_.value is None:
+            continue
+        k = None
+        for atom, val in p_.decisions.items():
+            m = re.fullmatch(r"%s\._format_number == (\d+)" % f.self_name,
+                             atom)
+            if m and val:
+                k = int(m.group(1))
+        if k is None:
+            continue
+        shape = interp.eval(p_.value, {})
+        if not isinstance(shape, strabs.Str):
+            writer.setdefault(k, set()).add(("?",))
+            continue
+        toks = list(shape.toks)
+        # prefix: "R/" or "R<repetitions>/"
+        if toks and toks[0] == ("L", "R") and len(toks) > 2 and \
+                toks[1] == ("V", "repetitions") and toks[2][0] == "L" and \
+                toks[2][1].startswith("/"):
+            prefixes.add("Rn/")
+            toks = [("L", toks[2][1][1:])] + toks[3:]
+        elif toks and toks[0][0] == "L" and toks[0][1].startswith("R/"):
+            prefixes.add("R/")
+            toks = [("L", toks[0][1][2:])] + toks[1:]
+        else:
+            prefixes.add("?")
+        comps = []
+        seps = []
+        for kind, text in toks:
+            if kind == "V":
+                comps.append("duration" if "duration" in text else (
+                    "point" if text.endswith("_point") else "?"))
+            elif text:
+                if text == "P0Y" or text.startswith("P0Y"):
+                    comps.append("duration")
+                    text = text[3:]
+                elif text.endswith("P0Y"):
+                    seps.append(text[:-3])
+                    comps.append("duration")
+                    text = ""
+                if text:
+                    seps.append(text)
+        writer.setdefault(k, set()).add((tuple(comps), tuple(seps)))
     want = {1: ("point", "point"), 3: ("point", "duration"),
             4: ("duration", "point")}
     for k in (1, 3, 4):
         rep.anchor(rule, "recurrence notations")
-        got = writer.get(k, (None, ""))[0]
-        rep.check(got == want[k] and want[k] in reader, rule,
+        got = writer.get(k, set())
+        rep.check(got == {(want[k], ("/",))} and want[k] in reader, rule,
                   ctx.fkey(f, None, "notation-%d" % k), f.loc(),
                   "notation %d is written as %s and a regex reads that "
                   "order" % (k, "/".join(want[k])),
                   "notation %d is written as %s; readers exist for %s" % (
-                      k, got, sorted(reader)), P)
+                      k, sorted(got), sorted(reader)), P)
     # R prefix and count
-    src = U(f.node)
-    rep.check("'R/'" in src and "'R' + str(" in src, rule,
+    rep.check(prefixes == {"R/", "Rn/"}, rule,
               ctx.fkey(f, None, "prefix"), f.loc(),
               "R, optional count and '/' are written as the regexes read "
-              "them", "TimeRecurrence.__str__ no longer writes R[n]/", P,
-              nontrivial=False)
-    # parser: group -> constructor keyword
+              "them", "TimeRecurrence.__str__ writes the prefixes %s, not "
+              "R[n]/" % sorted(prefixes), P)
+    # parser: group -> constructor keyword, and which parser handles it
     pf = par.methods["parse"]
-    assign = {}
-    for n in walk_no_nested(pf.node):
-        if isinstance(n, ast.If) and isinstance(n.test, (ast.Compare,
-                                                         ast.BoolOp)):
-            m = re.search(r"'(\w+)' in \w+", U(n.test))
-            if m:
-                for st in n.body:
-                    if isinstance(st, ast.Assign):
-                        assign[m.group(1)] = U(st.targets[0])
-    call = [n for n in walk_no_nested(pf.node) if isinstance(n, ast.Call) and
-            U(n.func).endswith("TimeRecurrence")]
-    kw = {k.arg: U(k.value) for k in call[0].keywords} if call else {}
-    want_kw = {"reps": "repetitions", "start": "start_point",
-               "end": "end_point", "intv": "duration"}
-    # group -> local -> constructor keyword of the same meaning
-    good = all(g in assign and kw.get(v) == assign[g]
-               for g, v in want_kw.items())
+    ctor = [n for n in walk_no_nested(pf.node) if isinstance(n, ast.Return)
+            and isinstance(n.value, ast.Call) and
+            U(n.value.func).endswith("TimeRecurrence")]
+    routed = {}     # keyword -> set of (group, how)
+    if len(ctor) != 1:
+        rep.error("R28", "TimeRecurrenceParser.parse: the return of the "
+                  "constructed TimeRecurrence was not identified")
+    else:
+        from ..flow import block_of
+        region = ctor[0]
+        blk = None
+        cur = ctor[0]
+        while cur is not None and cur is not pf.node:
+            par_ = parent(cur)
+            if isinstance(par_, (ast.For, ast.While)) or par_ is pf.node:
+                blk = par_.body
+                break
+            cur = par_
+        for p_ in explore(blk or pf.node.body):
+            if p_.outcome != "return" or not isinstance(p_.value, ast.Call) \
+                    or not U(p_.value.func).endswith("TimeRecurrence"):
+                continue
+            for kw_ in p_.value.keywords:
+                v = kw_.value
+                txt = U(v)
+                if txt == "None":
+                    continue
+                m = re.search(r"\['(\w+)'\]\)*$", txt)
+                how = "?"
+                if isinstance(v, ast.Call):
+                    how = U(v.func)
+                routed.setdefault(kw_.arg, set()).add(
+                    (m.group(1) if m else "?", how))
+    want_kw = {"repetitions": "reps", "start_point": "start",
+               "end_point": "end", "duration": "intv"}
+    got_kw = {k: sorted({g for g, _ in v}) for k, v in routed.items()}
+    good = all(got_kw.get(k) == [g] for k, g in want_kw.items()) and \
+        set(got_kw) == set(want_kw)
     rep.check(good, rule, ctx.fkey(pf, None, "group-to-keyword"), pf.loc(),
               "regex groups reach the constructor keyword of the same "
               "meaning",
-              "recurrence groups are routed %s -> %s; expected %s passed by "
-              "keyword" % (assign, kw, want_kw), P)
-    # which parser handles which group
-    uses = {}
-    for n in walk_no_nested(pf.node):
-        if isinstance(n, ast.Assign) and isinstance(n.value, ast.Call) and \
-                re.search(r"\w+\['(\w+)'\]", U(n.value)):
-            m = re.search(r"\w+\['(\w+)'\]", U(n.value))
-            if m:
-                uses[m.group(1)] = U(n.value.func)
-    good = ("timepoint_parser" in uses.get("start", "") and
-            "timepoint_parser" in uses.get("end", "") and
-            "duration_parser" in uses.get("intv", ""))
+              "recurrence groups reach the constructor as %s; expected %s "
+              "passed by keyword" % (got_kw, want_kw), P)
+    uses = {k: sorted({h for _, h in v}) for k, v in routed.items()}
+    good = (all("timepoint_parser.parse" in h
+                for k in ("start_point", "end_point")
+                for h in uses.get(k, ["-"])) and
+            all("duration_parser.parse" in h
+                for h in uses.get("duration", ["-"])) and
+            uses.get("repetitions") == ["int"])
     rep.check(good, rule, ctx.fkey(pf, None, "component-parsers"), pf.loc(),
               "points go through the time point parser, the interval "
-              "through the duration parser",
+              "through the duration parser, the count through int()",
               "recurrence components are parsed by %s" % uses, P)
 
 
